@@ -465,6 +465,15 @@ func JudgeC12(c *Case, ex *Exec) []Finding {
 				}
 			}
 		}
+		// Line.AdjustBaselines only moves the cross-axis position: bounds and glyphs together
+		if o.Direction.IsVertical() {
+			ln := shaping.Line{copyOut(o)}
+			ln.AdjustBaselines()
+			identities("after Line.AdjustBaselines", ln[0], add)
+			if ln[0].Advance != o.Advance {
+				add("adjust-baselines", "AdjustBaselines changed the run advance from %d to %d", o.Advance, ln[0].Advance)
+			}
+		}
 		// RecalculateAll restores all identities
 		r := copyOut(o)
 		r.AddLetterSpacing(96, false, false)
